@@ -106,7 +106,7 @@ structure Fill (store : Store) (vals : List BVal) (un : List (Nat × String)) (V
 def negU (V : List BVal) (un : List (Nat × String)) : Bool :=
   un.any (fun e => match V[e.1]? with | some (.mon _ n) => decide (n < 0) | _ => false)
 
-structure Inv (store : Store) (rs : List Resource) (vi : List (String × Nat)) (vals : List BVal) (un : List (Nat × String))
+structure RInv (store : Store) (rs : List Resource) (vi : List (String × Nat)) (vals : List BVal) (un : List (Nat × String))
     (V : List BVal) (env : VEnv) (b : Bool) : Prop where
   fill : Fill store vals un V
   ctx : Ctx rs V env
@@ -268,10 +268,10 @@ theorem Ctx.snoc {rs : List Resource} {V : List BVal} {env env' : VEnv} (cx : Ct
 /-! ### literal resources: constants and monetary literals resolve, whatever the store -/
 
 theorem lit_step {store : Store} {vars : List (String × BVal)} {rs : List Resource} {vi : List (String × Nat)} {R : Resolved}
-    {V : List BVal} {env : VEnv} {b : Bool} (hi : Inv store rs vi R.vals R.unresolved V env b) {r : Resource}
+    {V : List BVal} {env : VEnv} {b : Bool} (hi : RInv store rs vi R.vals R.unresolved V env b) {r : Resource}
     (hl : r.isLit = true) (hwf : WFres (rs ++ [r])) :
     ∃ R' v, resolveOne store vars R r = .ok R' ∧ R'.vals = R.vals ++ [v] ∧ R'.unresolved = R.unresolved ∧
-      Inv store (rs ++ [r]) vi R'.vals R'.unresolved (V ++ [v]) env b := by
+      RInv store (rs ++ [r]) vi R'.vals R'.unresolved (V ++ [v]) env b := by
   have hlenV : V.length = rs.length := hi.ctx.typed.len
   have hb : ∀ e ∈ R.unresolved, e.1 < V.length := fun e he => by rw [hi.fill.len]; exact hi.fill.bound e he
   cases r with
@@ -325,9 +325,9 @@ theorem WFres.prefix {rs suf : List Resource} (h : WFres (rs ++ suf)) : WFres rs
 
 theorem lits_step {store : Store} {vars : List (String × BVal)} {vi : List (String × Nat)} {env : VEnv} {b : Bool}
     {suf : List Resource} (hl : ∀ r ∈ suf, r.isLit = true) {rs : List Resource} {R : Resolved} {V : List BVal}
-    (hi : Inv store rs vi R.vals R.unresolved V env b) (hwf : WFres (rs ++ suf)) :
+    (hi : RInv store rs vi R.vals R.unresolved V env b) (hwf : WFres (rs ++ suf)) :
     ∃ R' V', resolveLoop store vars suf R = .ok R' ∧ R'.unresolved = R.unresolved ∧
-      Inv store (rs ++ suf) vi R'.vals R'.unresolved V' env b := by
+      RInv store (rs ++ suf) vi R'.vals R'.unresolved V' env b := by
   induction suf generalizing rs R V with
   | nil => exact ⟨R, V, rfl, rfl, by simpa using hi⟩
   | cons r suf ih =>
@@ -422,12 +422,12 @@ theorem decl_step {store : Store} {plain : VEnv} {st st0 : CState} {d : VarDecl}
        | .metaOf acc key => ∃ a c, visitTyped st .account acc = .ok (a, c, st0) ∧ r = .varMeta d.ty d.name a key
        | .balance acc ae => d.ty = .monetary ∧ ∃ a c st1 s c', visitTyped st .account acc = .ok (a, c, st1) ∧
            visitTyped st1 .asset ae = .ok (s, c', st0) ∧ r = .varBalance d.name a s)
-    (hi : Inv store st0.resources st.varIdx R0.vals R0.unresolved V0 env b)
+    (hi : RInv store st0.resources st.varIdx R0.vals R0.unresolved V0 env b)
     (hpl : isPlain d = true → ∃ v, lookupVar plain d.name = some v ∧ (BVal.ofVal v).bty = d.ty.toB) :
     match resolveVar1 store plain env d with
     | .error er => resolveOne store (plain.map ofP) R0 r = .error er
     | .ok v => ∃ R1 V1, resolveOne store (plain.map ofP) R0 r = .ok R1 ∧
-        Inv store (st0.resources ++ [r]) (st.varIdx ++ [(d.name, st0.resources.length)]) R1.vals R1.unresolved V1
+        RInv store (st0.resources ++ [r]) (st.varIdx ++ [(d.name, st0.resources.length)]) R1.vals R1.unresolved V1
           (env ++ [(d.name, v)]) (b || negDecl d v) := by
   have hfn : d.name ∉ env.map (·.1) := by
     rw [hi.names]
@@ -572,11 +572,11 @@ theorem resolve_sim {store : Store} {plain : VEnv} {ds : List VarDecl}
     (hpl : ∀ d ∈ ds, isPlain d = true → ∃ v, lookupVar plain d.name = some v ∧ (BVal.ofVal v).bty = d.ty.toB)
     {st st' : CState} (hv : visitVarList st ds = .ok st') (hidx : VarIdxOK st) (hg : Good st)
     {suf : List Resource} (hsuf : st'.resources = st.resources ++ suf)
-    {R : Resolved} {V : List BVal} {env : VEnv} {b : Bool} (hi : Inv store st.resources st.varIdx R.vals R.unresolved V env b) :
+    {R : Resolved} {V : List BVal} {env : VEnv} {b : Bool} (hi : RInv store st.resources st.varIdx R.vals R.unresolved V env b) :
     match resolveVars store plain ds env with
     | .error er => resolveLoop store (plain.map ofP) suf R = .error er
     | .ok env' => ∃ R' V', resolveLoop store (plain.map ofP) suf R = .ok R' ∧
-        Inv store st'.resources st'.varIdx R'.vals R'.unresolved V' env' (b || negSpec env' ds) := by
+        RInv store st'.resources st'.varIdx R'.vals R'.unresolved V' env' (b || negSpec env' ds) := by
   induction ds generalizing st suf R V env b with
   | nil =>
     simp only [visitVarList, Except.ok.injEq] at hv; subst hv
